@@ -126,6 +126,16 @@ class RandInfoBuilder(ModelVisitor,RandIF):
             
         randset_l = list(filter(lambda e: e is not None, builder._randset_l))
         
+        # The size of a random-size array must be known when the constraints on
+        # its elements (sum, product, membership) are built: solve the sets that 
+        # hold an array size first, whatever the order of declaration
+        def holds_array_size(rs):
+            for f in rs.all_fields():
+                if isinstance(f.parent, FieldArrayModel) and f.parent.size is f:
+                    return True
+            return False
+        randset_l.sort(key=lambda rs: 0 if holds_array_size(rs) else 1)
+        
         # Handle ordering constraints.
         # - Collect fields that are members of this randset
         # - Sort in dependency order
